@@ -97,16 +97,18 @@ Theorem lbfgsb_wrap_ktensor : scipy_contract V F CB KW leb vle scipy -> forall c
   let o := lbfgsb_solve (ktensor V) V F CB KW tovec_f update_all objective scipy (mkKw CB KW (UserCb CB cb) other) K0 lb in
   o_bounds _ _ _ _ _ o = repeat (lb, None) (krank K0 * sum_nat (kshape K0)) /\
   kw_callback _ _ (o_kwargs_during _ _ _ _ _ o) = MonitorOf CB cb /\ o_kwargs _ _ _ _ _ o = mkKw CB KW (UserCb CB cb) other /\
-  tovec_f (o_model _ _ _ _ _ o) = o_final_vector _ _ _ _ _ o /\ objective (o_model _ _ _ _ _ o) = o_final_f _ _ _ _ _ o /\
-  leb (objective (o_model _ _ _ _ _ o)) (objective K0) = true /\
-  (Forall (within V vle lb) (tovec_f K0) -> Forall (within V vle lb) (tovec_f (o_model _ _ _ _ _ o))) /\
+  tovec_f (o_model _ _ _ _ _ o) = o_final_vector _ _ _ _ _ o /\
+  (Forall (within V vle lb) (tovec_f K0) ->
+   leb (objective (o_model _ _ _ _ _ o)) (objective K0) = true /\ Forall (within V vle lb) (tovec_f (o_model _ _ _ _ _ o))) /\
   kshape (o_model _ _ _ _ _ o) = kshape K0 /\ krank (o_model _ _ _ _ _ o) = krank K0.
 Proof.
   intros HC cb other K0 lb W o.
   pose proof (lbfgsb_wrap (ktensor V) V F CB KW leb vle tovec_f update_all objective (@wf_k V)
                 update_all_tovec tovec_update_all scipy HC cb other K0 lb W) as H.
-  fold o in H. destruct H as (H1 & H2 & H3 & H4 & H5 & H6 & H7).
-  rewrite length_tovec in H1. repeat split; auto.
+  fold o in H. destruct H as (H1 & H2 & H3 & H4 & H6).
+  rewrite length_tovec in H1.
+  split; [exact H1|]. split; [exact H2|]. split; [exact H3|]. split; [exact H4|]. split; [exact H6|].
+  split.
   - unfold o, lbfgsb_solve. destruct (scipy _ _ _ _). cbn [o_model]. apply update_all_keeps.
   - unfold o, lbfgsb_solve. destruct (scipy _ _ _ _). cbn [o_model]. apply update_all_keeps.
 Qed.
